@@ -3,6 +3,18 @@
 import json, subprocess
 
 CLAIMED = {
+ "C06": ("C06 PMT decoding vs packetisation", "§4 C06",
+   "Seeded search over abstract PMTs x pointer_field x foreign sections before x trailing stuffing x per-packet split sizes and stuffing styles x multiplexer schedule among foreign PIDs (incl. another PMT on another PID) x every Read outcome of a scripted reader x truncation; ReadPMT and NewPMT compared with the abstract PMT, the completion predicate evaluated on every prefix of the payload (sender crash points), CRC and header accessors checked; complete sweep of first-packet size 1..184 x pointer 0..20 x 3 stuffing styles for 3 fixed PMTs. Sampling, not proof.",
+   "Trusts the reference serialiser/CRC written from ISO 13818-1; opaque descriptor bodies are compared by tag only (no raw accessor in the API); one recorded known finding (zero-stream PMT through ReadPMT)."),
+ "C07": ("C07 PAT decoding over carriers", "§4 C07",
+   "Seeded search over abstract PATs (0..42 entries, network entry, reserved bits, PIDs > 255) x PAT packet adaptation-field style x position chosen by a scripted multiplexer among foreign packets x later different PAT x absent PAT x end of stream inside the PAT packet x every Read outcome of a scripted reader; payload, packet and stream carriers decoded in the same run and compared with the abstract PAT, IsPMT probed. Sampling, not proof; the simulated dimension is thin (stream position, fragmentation, EOF/error placement, carrier equivalence).",
+   "Trusts the reference serialiser; pointer_field 0 and distinct program numbers only."),
+ "C14": ("C14 PMT filtering as relay stage", "§4 C14",
+   "Seeded search over abstract PMTs x packetisation/mux/fragmentation into the real accumulator x PID request shapes (subset, order, absent, duplicated, PAT/PMT PID, empty) -> FilterPMTPacketsToPids -> comparison with the reference serialisation of the restricted PMT (headers, pointer, section_length, CRC, padding), error contract, inputs untouched -> re-mux -> ReadPMT over a second faulty reader; RemoveElementaryStreams/Pids/PIDExists on the decoded PMT. Sampling, not proof.",
+   "Trusts the reference serialiser/CRC; elementary PIDs distinct; the overlap of the two error clauses is accepted either way."),
+ "C17": ("C17 payload accumulator", "§4 C17",
+   "Seeded search over caller histories (WritePacket of 4 packet classes with/without unit start, Reset, reuse of the caller's buffer, scribbling on returned slices) x predicate kinds (threshold, never, always, error window, flapping) against a 3-state reference model compared after every operation, with a fresh accumulator in lock-step after every Reset; complete sweep of all histories of length <=6 over a 7-letter alphabet. Sampling beyond the sweep.",
+   "Trusts the reference model written from the statement; payload-less packet listing accepted either way; PUSI on payload-less packets not generated."),
  "C16": ("C16 sync search", "§4 C16",
    "Seeded search over scripted byte streams (false sync bytes of every kind before the true header, headers cut by end of stream, header straddling a bufio refill) x scanner kind x bufio size x every Read outcome of a scripted reader (fragmentation, zero reads, data+EOF, transient/hard errors), with a complete sweep of false-sync kind x bufio size 16..64 x header position 0..80 under one-byte reads. Oracle: reference scan + position of the reader afterwards. Sampling, not proof.",
    "Trusts the harness's reference scan (written from the statement), stdlib bufio, and the narrow relaxation after an injected reader error."),
